@@ -233,8 +233,15 @@ var checks = map[string]*check{
 		Level: "exploration",
 		Rule: "every history of <= 2 (thorough <= 3) events over {dispense, brokered connection plugin->host, brokered connection host->plugin, stdio burst} after connect, followed by Kill with a cooperative plugin, x {net/rpc, gRPC, gRPC+mux} x TLS {none, AutoMTLS} x launch {command, custom runner}; real plugin.Serve child and real Client in a fresh host process with private socket/temp directories; " +
 			"afterwards both directories are listed, the plugin's deferred-cleanup marker is checked and the host's goroutines are dumped 7 s after Kill; non-trivial = at least one event",
-		Assumptions: []string{"no schedule control over real processes; a leak that needs a particular interleaving may escape", "goroutines are sampled once, 7 s after Kill (after the 5 s broker timers)"},
-		Parts:       []part{{Name: "leaks", Kind: "enum", Bin: "e3.test", Test: "TestC18"}},
+		Assumptions: []string{"real-process part: no schedule control; schedule-dependent leaks are the subject of the explorer part (scripted plugin process, virtual sockets whose files are marker files), under every schedule with <= 1 (thorough 2) deviations", "goroutines are sampled once, 7 s after Kill (after the 5 s broker timers)"},
+		Parts: []part{
+			{Name: "leaks", Kind: "enum", Bin: "e3.test", Test: "TestC18"},
+			// schedule-dependent leaks: sessions used from one or two goroutines (racing first Client() calls,
+			// concurrent dispenses, one brokered connection in either direction) then a graceful Kill, under
+			// every schedule with <= d deviations; goroutines, listeners, socket files and the runner directory
+			{Name: "schedules", Kind: "explore", Scen: "kill_leak", Depths: depths([]int{1}, []int{1, 2}), Budget: budget(3*time.Minute, 20*time.Minute)},
+			{Name: "conformance", Kind: "conform", Scen: "kill_leak"},
+		},
 	},
 	"C17": {
 		Title: "Plugin launch environment and stdin are determined by the client config",
@@ -271,7 +278,7 @@ var checks = map[string]*check{
 		Title: "With AutoMTLS every plugin connection is mutually authenticated",
 		Level: "fault_enumeration",
 		Rule: "plugin side (real processes): a real AutoMTLS pair (real plugin.Serve child, real Client) x {net/rpc, gRPC, gRPC+mux} with brokered listeners open in both directions; an intruder in the host process attacks the main address and every other socket of the pair with each credential class {plaintext, TLS without client certificate, TLS with a fresh self-signed certificate, TLS with a certificate of the same subject/SAN as go-plugin's but another key}, speaking both gRPC (health check) and yamux+net/rpc (Control.Ping); control cells without AutoMTLS show that the intruder is answered when nothing protects the socket; " +
-			"host side (explorer): an impostor plugin that announces certificate A and serves with certificate B, or announces A and serves plaintext, against the real AutoMTLS Client under schedules with <= 1 deviation; non-trivial = every intrusion / impostor case",
+			"host side: an impostor plugin that announces certificate A and serves with certificate B, with the certificate and key of another plugin the same host launched before (sibling), or plaintext, against the real AutoMTLS Client: over gRPC under the explorer (schedules with <= 1 deviation) and over net/rpc and gRPC as hand-made real plugin processes (after an honest hand-made plugin as control); non-trivial = every intrusion / impostor case",
 		Assumptions: []string{
 			"'replaying the legitimate certificate without its key' cannot complete a TLS handshake and is not attempted",
 			"the intruder runs inside the host process (it sees the socket directories a local attacker would)",
